@@ -988,7 +988,7 @@ func (w *world) wait(a *actor) {
 		} else {
 			a.pend = &m
 		}
-	case <-time.After(20 * time.Second):
+	case <-time.After(60 * time.Second):
 		w.hung = true
 		a.running, a.pend = false, nil
 		fmt.Fprintf(os.Stderr, "scenario %s: reconcile of %s neither reached a gate nor finished within 20s\n", w.scenID, a.name)
